@@ -57,6 +57,13 @@ def cases(draw, backend):
     fuel = draw(st.integers(1, 2))
     level = draw(st.sampled_from(["event", "event", "object", "chained"]))
     ncols = draw(st.sampled_from([1, 2, 2, 3, 4]))
+    # one case in eight is a column/label count mismatch (must be refused): half of them over a bare value, half over a tuple / list
+    mismatch = draw(st.sampled_from([None] * 7 + ["draw"]))
+    if mismatch:
+        mismatch = draw(st.sampled_from(["bare", "row"]))
+        if mismatch == "bare":
+            ncols = 1
+            level = "event" if level == "chained" else level
     src = dataset_text(sch)
     chained_cols = None
     if level == "chained":
@@ -84,6 +91,8 @@ def cases(draw, backend):
         head = lambda body: f"Select(SelectMany({src}, lambda e: {os_[0]}), lambda {v}: {body})"
     cols = chained_cols if chained_cols is not None else [g.column(scope, fuel) for _ in range(ncols)]
     form = draw(st.sampled_from(["bare", "tuple", "list", "dict", "explicit", "explicit", "explicit1"]))
+    if mismatch:
+        form = "explicit1" if mismatch == "bare" else "explicit"
     if form in ("bare", "explicit1") and ncols != 1:
         form = "tuple" if form == "bare" else "explicit"
     if level == "object" and form in ("bare", "explicit1") and isinstance(cols[0][1], TSeq):
@@ -109,14 +118,14 @@ def cases(draw, backend):
         if form == "explicit1":
             inner = head(cols[0][0])
             labels = names[0] if draw(st.booleans()) else [names[0]]
-            if draw(st.integers(0, 4)) == 0:
+            if mismatch or draw(st.integers(0, 9)) == 0:
                 # a bare value is one column: any other number of labels is a mismatch
                 expect_error = True
                 labels = draw(st.sampled_from([[], [names[0], "extra"], [names[0], "extra", "more"]]))
         else:
             inner = head("(" + ", ".join(c[0] for c in cols) + ("," if ncols == 1 else "") + ")") if draw(st.booleans()) else head("[" + ", ".join(c[0] for c in cols) + "]")
             labels = list(names)
-            if draw(st.integers(0, 5)) == 0:
+            if mismatch or draw(st.integers(0, 9)) == 0:
                 expect_error = True
                 if draw(st.booleans()) and len(labels) > 1:
                     labels = labels[:-1]
